@@ -437,6 +437,11 @@ def w_hist2(part):
     def run_all(who):
         out = {}
         for name, extra in who:
+            if name in ("adsb.position", "adsb.airborne_position", "adsb.surface_position"):
+                f = getattr(pms.adsb, name.split(".")[1])
+                for i in range(0, len(frames) - 1):
+                    out[(name, extra, i)] = repr(call(f, frames[i], frames[i + 1], 10, 11, *([52.0, 4.0] if "surface" in name or i % 2 else [])))
+                continue
             f = TABLE[name][1]
             for i, m in enumerate(frames):
                 out[(name, extra, i)] = repr(call(f, m, *extra))
@@ -453,14 +458,15 @@ def w_hist2(part):
             for m in frames:
                 call(f, m, *extra)
 
+    names = names + pairs
     base = {}
     for nm in names:
         base.update(_in_child(lambda nm=nm: run_all([nm])))
     if isinstance(part, tuple):     # replay of one (first, second) pair
-        firsts = [g for g in names + pairs if [g[0], list(g[1])] == part[0]]
+        firsts = [g for g in names if [g[0], list(g[1])] == part[0]]
         names = [nm for nm in names if nm[0] == part[1]]
     else:
-        firsts = (names + pairs)[part::16]
+        firsts = names[part::16]
     for g in firsts:
         def after_g(g=g):
             first(g)
